@@ -1,5 +1,6 @@
-\* header: mode, aperture keyword and value, field type, 1-3 fields (padded, repeated, unsorted),
-\* 1-3 wavelengths (padded) with any primary, PWAV before or after WAVM, unknown lines anywhere;
+\* header: mode, aperture keyword, field type, 1-2 fields (padded, repeated, unsorted),
+\* 1-2 wavelengths with any primary, PWAV before or after WAVM (the driver's header grids add
+\* padding and unknown lines, one mechanism at a time);
 \* one lens shape (object, one glass surface, plain image)
 SPECIFICATION Spec
 CONSTANTS
@@ -10,12 +11,12 @@ CONSTANTS
   Apertures <- Ap3
   GcatLists <- NoGcat
   FieldTypes <- FtBoth
-  FieldPairs <- FP3
+  FieldPairs <- FP2
   MaxFld = 2
-  PadFld <- Pad02
+  PadFld <- Pad01
   Waves <- W2
   MaxWl = 2
-  PadWl <- Pad02
+  PadWl <- Pad0
   PwavFirst <- PwBoth
   Types <- StdOnly
   TypeOpt <- TypeReq
@@ -26,10 +27,11 @@ CONSTANTS
   ParmRows <- Rows1
   Glasses <- GQ
   ImageFree = FALSE
-  Noise <- Noise2
-  MaxNoise = 1
+  Noise <- NoNoise
+  MaxNoise = 0
   Catalogue <- MCCatalogue
   Export = FALSE
+  ExportMod = 1
 INVARIANT RejectsNSC
 INVARIANT FinishTotal
 INVARIANT GridExact
